@@ -285,9 +285,9 @@ def replay_once(binp, path, env_extra=None, timeout=300):
     return "abort", out + "\n" + err[-3000:]
 
 
-def confirm(binp, path, n=3):
+def confirm(binp, path, n=3, timeout=300):
     """a candidate counts only if it fails identically in n fresh processes"""
-    kinds = [replay_once(binp, path)[0] for _ in range(n)]
+    kinds = [replay_once(binp, path, None, timeout)[0] for _ in range(n)]
     if all(k == "fail" for k in kinds):
         return "fail"
     if all(k == "abort" for k in kinds):
@@ -645,11 +645,14 @@ def check(pid, tier, only=None):
                     cands.append((m.group(1), m.group(2)))
             if rc == -999:
                 inconclusive.append("process %s hit the %ds budget" % (tag, timeout))
-                if cfg.get("hang_is_violation"):
+                # the case that was running when the budget ran out: a library call that never returns is a violation of
+                # every property; whether it is one (and not just a slow machine) is decided by replaying that case alone
+                if cfg.get("hang_is_violation", True):
                     cr = os.path.join(rundir, "crumb_%s.bin" % tag)
                     outp = os.path.join(rundir, "hang_%s.json" % tag)
-                    if os.path.exists(cr) and crumb_to_replay(cr, outp, pid, "hang"):
-                        cands.append(("hang", outp))
+                    r = crumb_to_replay(cr, outp, pid, "hang") if os.path.exists(cr) else None
+                    if r:
+                        cands.append((r[0] + " [does not return]", outp))
             elif rc in (0, 1):
                 pass
             else:
@@ -682,9 +685,11 @@ def check(pid, tier, only=None):
     os.makedirs(outdir, exist_ok=True)
     seen = set()
     flaky = []
+    hang_to = cfg.get("hang_replay_timeout", 120 if tier == "quick" else 600)
     for name, path in cands:
-        st = confirm(binp, path)
-        if st == "abort":
+        is_hang = name.endswith("[does not return]")
+        st = confirm(binp, path, 3, hang_to if is_hang else 300)
+        if st == "abort" and not is_hang:
             minimise_abort(binp, path)
             st = confirm(binp, path)
         if st in ("fail", "abort"):
